@@ -43,6 +43,9 @@ pub enum Insertion {
         /// inside the foreign element (as the bundled LAS-derived file does with its variable length records)
         #[serde(default)]
         child_standard_ns: bool,
+        /// extra content of the foreign element that only looks like markup: 1 CDATA, 2 comment, 3 processing instruction
+        #[serde(default)]
+        markup: u8,
     },
     /// foreign attribute added to the start tag number `at` (mod count)
     Attr { at: u16, local: String, value: String },
@@ -166,6 +169,17 @@ fn scan(xml: &str) -> Scan {
     Scan { points, leaf_ends, leaf_starts, tags }
 }
 
+/// Content that is character data, a comment or a processing instruction although it reads like markup.
+fn looks_like_markup(kind: u8) -> &'static str {
+    match kind % 8 {
+        1 => "<![CDATA[<!DOCTYPE html><html><data3D></e57Root>]]>",
+        2 => "<!-- <!DOCTYPE x [ <!ENTITY a 'b'> ]> </e57Root> <data3D type='Vector'> -->",
+        3 => "<?report <!DOCTYPE y> </e57Root> ?>",
+        4 => "<![CDATA[]]>]]&gt;<![CDATA[ xmlns:zz=\"u\" ]]>",
+        _ => "",
+    }
+}
+
 fn esc(t: &str) -> String {
     t.replace('&', "&amp;").replace('<', "&lt;").replace('>', "&gt;").replace('"', "&quot;")
 }
@@ -175,7 +189,7 @@ fn apply(xml: &str, ins: &[Insertion]) -> String {
     let mut edits: Vec<(usize, String)> = Vec::new();
     for i in ins {
         match i {
-            Insertion::Elem { at, local, ty, text, child, attrs, own_ns, child_standard_ns } => {
+            Insertion::Elem { at, local, ty, text, child, attrs, own_ns, child_standard_ns, markup } => {
                 if sc.points.is_empty() {
                     continue;
                 }
@@ -194,6 +208,7 @@ fn apply(xml: &str, ins: &[Insertion]) -> String {
                     } else {
                         e.push_str(&esc(text));
                     }
+                    e.push_str(looks_like_markup(*markup));
                     e.push_str(&format!("</{local}>\n"));
                     edits.push((pos, e));
                     continue;
@@ -214,6 +229,7 @@ fn apply(xml: &str, ins: &[Insertion]) -> String {
                 } else {
                     e.push_str(&esc(text));
                 }
+                e.push_str(looks_like_markup(*markup));
                 e.push_str(&format!("</{PREFIX}:{local}>\n"));
                 edits.push((pos, e));
             }
@@ -335,7 +351,7 @@ fn insertion(s: &mut Src) -> Insertion {
             _ => String::new(),
         };
         let child = if ty == Some("Structure") || s.chance(1, 5) { Some(local_name(s)) } else { None };
-        Insertion::Elem { at: s.u16(), local: local_name(s), ty: ty.map(|t| t.to_string()), text, child, attrs, own_ns: s.chance(1, 5), child_standard_ns: s.chance(1, 4) }
+        Insertion::Elem { at: s.u16(), local: local_name(s), ty: ty.map(|t| t.to_string()), text, child, attrs, own_ns: s.chance(1, 5), child_standard_ns: s.chance(1, 4), markup: if s.chance(1, 3) { s.below(8) as u8 } else { 0 } }
     } else {
         Insertion::Attr { at: s.u16(), local: s.pick(&["type", "fileOffset", "recordCount", "length", "minimum", "maximum", "scale", "precision", "note"]).to_string(), value: s.pick(&["Blob", "String", "7", "0", "single", "x"]).to_string() }
     }
@@ -387,7 +403,10 @@ impl Check for C18 {
             Case::Insert { program, insertions } => {
                 for i in insertions {
                     match i {
-                        Insertion::Elem { local, own_ns, child, child_standard_ns, .. } => {
+                        Insertion::Elem { local, own_ns, child, child_standard_ns, markup, .. } => {
+                            if matches!(*markup % 8, 1..=4) {
+                                v.nt("foreign_content_that_reads_like_markup");
+                            }
                             if *child_standard_ns && child.is_some() {
                                 v.nt("standard_namespace_element_nested_in_a_foreign_element");
                             }
@@ -455,7 +474,8 @@ impl Check for C18 {
                     let neutral: Vec<Insertion> = insertions
                         .iter()
                         .map(|i| match i {
-                            Insertion::Elem { at, local, ty, text, child, attrs, own_ns, child_standard_ns } => Insertion::Elem {
+                            Insertion::Elem { at, local, ty, text, child, attrs, own_ns, child_standard_ns, markup } => Insertion::Elem {
+                                markup: *markup,
                                 child_standard_ns: *child_standard_ns,
                                 at: *at,
                                 local: format!("q_{local}"),
